@@ -357,6 +357,10 @@ def run(ctx) -> None:
 from ..selftest import V  # noqa: E402
 
 SELFTEST = [
+    V("smallest coordinate carried over from the previous direction (seeded C23-m5)", UT,
+      "        if len(kfrac) == 0:\n            mp_grid[i] = 1\n        else:\n            kmin = min(kfrac)\n",
+      "        if len(kfrac) > 0:\n            kmin = min(kfrac)\n        if True:\n", "fire", "R23.2",
+      edits=[(UT, "    mp_grid = np.array([None, None, None])\n", "    mp_grid = np.array([None, None, None])\n    kmin = Fraction(1, 1)\n")]),
     V("repeated points are selected again", UT, "            if kint not in kpoints_unique:\n                kpoints_unique.add(kint)\n                selected_kpoints.append(i)\n            else:\n                warnings.warn(f\"k-point {k} is repeated\")",
       "            kpoints_unique.add(kint)\n            selected_kpoints.append(i)", "fire", "R23.1"),
     V("seen-set never updated", UT, "                kpoints_unique.add(kint)\n", "", "fire", "R23.1"),
